@@ -377,31 +377,35 @@ class Scanner:
         return False
 
     def accept_postfix_op(self) -> None:
-        ch = self.peek()
-
-        if ch == "?":
-            self.emit(TokenKind.OPTION_OP, self.next())
-        elif ch == "*":
-            self.emit(TokenKind.REPEAT_OP, self.next())
-        elif ch == "+":
-            self.emit(TokenKind.REPEAT_ONCE_OP, self.next())
-        elif ch == "{":
-            self.emit(TokenKind.LBRACE, self.next())
-
-            while True:
-                self.skip_trivia()
-                if self.peek() == ",":
-                    self.emit(TokenKind.COMMA, self.next())
-                elif value := self.scan(RE_NUMBER):
-                    self.emit(TokenKind.NUMBER, value)
-                else:
-                    break
-
+        while True:
             self.skip_trivia()
-            if self.peek() == "}":
-                self.emit(TokenKind.RBRACE, self.next())
+            ch = self.peek()
+
+            if ch == "?":
+                self.emit(TokenKind.OPTION_OP, self.next())
+            elif ch == "*":
+                self.emit(TokenKind.REPEAT_OP, self.next())
+            elif ch == "+":
+                self.emit(TokenKind.REPEAT_ONCE_OP, self.next())
+            elif ch == "{":
+                self.emit(TokenKind.LBRACE, self.next())
+
+                while True:
+                    self.skip_trivia()
+                    if self.peek() == ",":
+                        self.emit(TokenKind.COMMA, self.next())
+                    elif value := self.scan(RE_NUMBER):
+                        self.emit(TokenKind.NUMBER, value)
+                    else:
+                        break
+
+                self.skip_trivia()
+                if self.peek() == "}":
+                    self.emit(TokenKind.RBRACE, self.next())
+                else:
+                    self.error("expected a closing brace")
             else:
-                self.error("expected a closing brace")
+                break
 
     def accept_string(self) -> bool:
         if self.peek() != '"':
